@@ -19,7 +19,8 @@ from ..common import Verdict, use_repo, SEED, BUILD, ensure_dir
 ALL = ['list', 'dict', 'tuple', 'set', 'P', 'PA', 'S', 'SD', 'GS', 'GT', 'GV', 'GC', 'GL', 'NA', 'NT', 'R2', 'R3', 'RL', 'RD', 'CR', 'ML', 'MD',
        'MS', 'OD', 'MO', 'XS']
 ALLLEAVES = ['i', 'i0', 's', 's0', 'z', 'c', 'n', 'f', 'm', 'e', 'b']
-DEVIATIONS = ['deepreg', 'slotsnone', 'falsystate', 'nonestate', 'emptytuple', 'latefill', 'scalarsub']
+DEVIATIONS = ['deepreg', 'slotsnone', 'falsystate', 'nonestate', 'emptytuple', 'latefill', 'scalarsub', 'stateorder']
+SCHEMES = ['ord', 'ext', 'dun', 'prv', 'app', 'upd']
 A7 = ['list', 'P', 'GS', 'R2', 'tuple', 'GV', 'ML']
 B7 = ['dict', 'S', 'SD', 'GT', 'NA', 'RL', 'OD']
 C7 = ['set', 'NT', 'R3', 'RD', 'CR', 'MD', 'MS', 'GC', 'PA', 'MO', 'XS']
@@ -28,6 +29,14 @@ CONFIGS = {
     # every leaf kind under every shape, chains of three objects with back edges over two 7-shape families
     'pairsAB': dict(MaxObjs=2, Shapes=A7 + B7, Leaves=['i'], KidsRoot=2, KidsRest=1),
     'pairsC':  dict(MaxObjs=2, Shapes=C7 + ['list', 'GS'], Leaves=['i'], KidsRoot=2, KidsRest=1),
+    # attribute names: every naming scheme under every shape that has named attributes (dict state, slot state, state
+    # next to arguments / listitems / dictitems), with a second object below
+    'names':   dict(MaxObjs=1, Shapes=['P', 'PA', 'S', 'SD', 'GS', 'NA', 'R3', 'RL', 'ML', 'MD', 'MS', 'MO', 'XS'], Leaves=['i', 'f'],
+                    KidsRoot=2, KidsRest=0, Schemes=['ext', 'dun', 'prv', 'app', 'upd']),
+    'names1':  dict(MaxObjs=2, Shapes=['P', 'PA', 'S', 'SD', 'GS', 'NA', 'R3', 'RL', 'ML', 'MD', 'MS', 'MO', 'XS'], Leaves=['i', 'f'],
+                    KidsRoot=2, KidsRest=0, Schemes=['ext', 'dun', 'prv', 'app', 'upd']),
+    'names2':  dict(MaxObjs=2, Shapes=['P', 'S', 'SD', 'ML', 'RL', 'list', 'GS'], Leaves=['i'], KidsRoot=2, KidsRest=1,
+                    Schemes=['ord', 'ext', 'dun']),
     'triL':    dict(MaxObjs=3, Shapes=['list', 'GL', 'tuple', 'PA'], Leaves=['i'], KidsRoot=2, KidsRest=1),
     'leaves':  dict(MaxObjs=1, Shapes=ALL, Leaves=['i', 'i0', 'z', 'c', 'n', 'm', 'e'], KidsRoot=2, KidsRest=0),
     'chainA5': dict(MaxObjs=3, Shapes=['list', 'P', 'GS', 'R2', 'GV'], Leaves=['i'], KidsRoot=1, KidsRest=1),
@@ -50,8 +59,8 @@ CONFIGS = {
     'quad_a':  dict(MaxObjs=4, Shapes=['list', 'P', 'GS', 'R2', 'tuple'], Leaves=['i'], KidsRoot=1, KidsRest=1),
     'quad_b':  dict(MaxObjs=4, Shapes=['dict', 'GV', 'ML', 'SD', 'NA'], Leaves=['i'], KidsRoot=1, KidsRest=1),
 }
-TIERS = {'quick': ['pairsAB', 'pairsC', 'triL', 'leaves', 'chainA5', 'chainB5'],
-         'thorough': ['pairs22', 'pairs_l', 'leaves2', 'triL', 'triL2', 'chainA', 'chainB', 'chainC', 'tri_a', 'tri_b', 'tri_c', 'tri_d', 'tri_e',
+TIERS = {'quick': ['pairsAB', 'pairsC', 'names', 'triL', 'leaves', 'chainA5', 'chainB5'],
+         'thorough': ['pairs22', 'pairs_l', 'leaves2', 'names1', 'names2', 'triL', 'triL2', 'chainA', 'chainB', 'chainC', 'tri_a', 'tri_b', 'tri_c', 'tri_d', 'tri_e',
                       'tri_a2', 'tri_b2', 'quad_a', 'quad_b']}
 RANDOM = {'quick': 400, 'thorough': 12000}
 WORKERS = int(os.environ.get('VERIF_TLC_WORKERS', '16'))
@@ -152,6 +161,7 @@ def pickle2(o):
 
 def observe(yaml, C, g, seed):
     """instantiate g, dump / load / pickle it for real; returns the trace record (None if pickle itself refuses)"""
+    g = [dict(o, n=o.get('n', 'ord')) for o in g]
     o = C.build(g, picker(g, seed))
     ref = C.project(pickle2(o))
     rec = {'g': g, 'ref': ref['heap'], 'rroot': ref['root'], 'unsafe': [], 'uwho': [], 'tags': [], 'full': [], 'fwho': [],
@@ -280,6 +290,8 @@ def in_domain(g):
     if any(color[i] == 0 and dfs(i) for i in range(n)):
         return False
     for i, o in enumerate(g):
+        if o['s'] in ('ML', 'RL') and o.get('n') == 'ext' and o['a'] and o['a'][0] == {'r': 0, 'l': 'n'}:
+            return False
         if o['s'] == 'GV' and o['p'][0]['r'] and g[o['p'][0]['r'] - 1]['s'] in ('dict', 'MD', 'OD', 'MO'):
             return False
         if o['s'] == 'GL':
@@ -354,7 +366,7 @@ def random_graph(rnd):
                 p, a = [val() for _ in range(rnd.randrange(1, 4))], []
             else:
                 p, a = [val() for _ in range(rnd.randrange(1 if last else 0, 4))], []
-            g.append({'s': s, 'p': p, 'a': a})
+            g.append({'s': s, 'p': p, 'a': a, 'n': rnd.choice(SCHEMES) if a and rnd.random() < 0.4 else 'ord'})
         if in_domain(g):
             return g
 
@@ -367,6 +379,7 @@ PROBES = {  # the smallest graph that separates the code as pinned from the repa
     'nonestate': [{'s': 'GV', 'p': [{'r': 0, 'l': 'z'}], 'a': []}],
     'emptytuple': [{'s': 'list', 'p': [{'r': 2, 'l': ''}, {'r': 2, 'l': ''}], 'a': []}, {'s': 'NA', 'p': [], 'a': [{'r': 0, 'l': 'i'}]}],
     'scalarsub': [{'s': 'list', 'p': [{'r': 2, 'l': ''}, {'r': 2, 'l': ''}], 'a': []}, {'s': 'XS', 'p': [{'r': 0, 'l': 'i'}], 'a': [{'r': 0, 'l': 'i'}]}],
+    'stateorder': [{'s': 'ML', 'p': [{'r': 0, 'l': 'i'}], 'a': [{'r': 0, 'l': 'i'}], 'n': 'ext'}],
     'latefill': [{'s': 'list', 'p': [{'r': 2, 'l': ''}, {'r': 3, 'l': ''}], 'a': []}, {'s': 'GL', 'p': [{'r': 3, 'l': ''}], 'a': []},
                  {'s': 'list', 'p': [{'r': 0, 'l': 'i'}], 'a': []}],
 }
@@ -456,7 +469,7 @@ def main(tier, replay=None):
     def mc(name):
         return tlc.run('Reduce', cfg='MC_Reduce.cfg', dump=True, tag='C17_' + name, timeout=3000, coverage=False,
                        workers=max(2, WORKERS // min(par, 4)), heap='8g' if par == 1 else '3g',
-                       constants=dict({k: tla(x) for k, x in CONFIGS[name].items()}, CodeFixes=tla(fixes)))
+                       constants=dict({'Schemes': tla(['ord'])}, **dict({k: tla(x) for k, x in CONFIGS[name].items()}, CodeFixes=tla(fixes))))
     with ThreadPoolExecutor(par) as ex:
         runs = dict(zip(TIERS[tier], ex.map(mc, TIERS[tier])))
     for name in TIERS[tier]:
